@@ -522,7 +522,10 @@ def stepI (s : St) : Ev → Option St
   | .giveUp n =>
     match s.insts[n]? with
     | some x =>
-      if x.st = .waiting ∧ s.isCancelled x = true then
+      -- a waiter whose context is cancelled leaves its select by the `ctx.Done()` branch and then still waits for
+      -- its predecessor; nothing can tell that it has left before the predecessor has exited, so the model lets it
+      -- leave then (and go on: `drained`) — the same traces, without a state per subset of waiters that have left
+      if x.st = .waiting ∧ s.isCancelled x = true ∧ predClosed s x = true then
         (match x.waitOn with
          | some _ => some (setInst s n { x with st := .draining })
          | none => some (setInst s n { x with st := .returned, out := some 0 }))
@@ -597,33 +600,16 @@ def stepI (s : St) : Ev → Option St
     | none => none
   | .quiesce _ _ _ => none
 
-/-- instance `n` is closed, its final section is still to come, and its record is no longer the container's:
-that section only reports the exit (callbacks, `Reset`), it cannot influence anything else -/
-def deadPending (s : St) (n : Nat) : Option (Option Nat) :=
-  match s.insts[n]? with
-  | some x =>
-    if x.st == .closed && !x.recorded && s.routine != some x.rid then some x.out else none
-  | none => none
-
-/-- is there a smaller instance in the same situation with the same result? (then the final sections of the
-two are interchangeable and only the smaller one is tried: symmetry reduction of the search, not of `step`) -/
-def shadowed (s : St) (n : Nat) : Bool :=
-  match deadPending s n with
-  | some o => (List.range n).any fun m => deadPending s m == some o
-  | none => false
-
-/-- internal events worth trying -/
+/-- the internal events: every internal event that is enabled in `s` is in this list (`Transfer.complete_routine`),
+so a REJECT of the checker is a statement about the model. (Earlier versions tried `giveUp` only once the
+predecessor had exited and only one of several interchangeable final sections of superseded records; these
+reductions are gone: they were not needed for the state-set sizes any more and had no proof.) -/
 def cands (s : St) : List Ev :=
   -- (a woken `WaitExited` must re-sample: offering `wake` lazily would be wrong at quiescence points, because
   -- the environment can cancel the root context without any broadcast)
   ((List.range s.calls.length).flatMap fun a => [Ev.cs a, .wctx a, .wake a]) ++
   ((List.range s.insts.length).flatMap fun n =>
-    -- `giveUp` is offered only once the predecessor has exited: a cancelled waiter that has not yet looked
-    -- at its channels is indistinguishable from one that already took the ctx branch (lazy choice)
-    (match s.insts[n]? with
-     | some x => if predClosed s x then [Ev.giveUp n] else []
-     | none => []) ++
-    [.drained n, .closeExit n] ++ (if shadowed s n then [] else [Ev.record n false, .record n true])) ++
+    [Ev.giveUp n, .drained n, .closeExit n, .record n false, .record n true]) ++
   ((List.range s.timers.length).flatMap fun t => [.fire t, .timerCS t]) ++
   s.pcancel.map Ev.envDo
 
